@@ -17,7 +17,8 @@ Local Open Scope Z_scope.
 
 Inductive src :=
 | SV (i : nat)    (* copy of the input vertex path[i] *)
-| SI (i : nat)    (* ip / ip2 computed by GetIntersection on the input segment path[i-1] .. path[i] *)
+| SI (i : nat)    (* ip / ip2 computed by a GetIntersection call that returned true on the input segment path[i-1] .. path[i] *)
+| SX (i : nat)    (* ip2 left behind by the GetIntersection call whose result the code ignores, when that result was false *)
 | SC (k : nat).   (* rect_as_path_[k] (RectClip64 only) *)
 
 Definition tpt := (pt * src)%type.
@@ -137,8 +138,8 @@ Section Lines.
               if negb ok then lines_loop f (S i) loc rs
               else if is_inside loc then lines_loop f i loc (add (ip, SI i) true rs)
               else if negb (is_inside prev) then
-                let '(_, _, ip2) := get_intersection_g gsi r prev_pt pi prev default_pt in
-                lines_loop f i loc (add (ip, SI i) false (add (ip2, SI i) true rs))
+                let '(ok2, _, ip2) := get_intersection_g gsi r prev_pt pi prev default_pt in
+                lines_loop f i loc (add (ip, SI i) false (add (ip2, if ok2 then SI i else SX i) true rs))
               else lines_loop f i loc (add (ip, SI i) false rs)
             | _, _ => Err ErrOOB
             end
